@@ -1,0 +1,98 @@
+//go:build verif
+
+package container
+
+import (
+	"fmt"
+	"os"
+	"strconv"
+	"strings"
+	"sync"
+	"time"
+)
+
+// Verification hooks (build tag verif): a per-endpoint log of the kinds of messages sent and
+// received (host side in memory, container side on its stderr, prefixed "VT "), and named delay
+// points that are no-ops unless armed through the environment (VERIF_DELAY="point:ms,point:ms"),
+// or announce themselves on stderr when VERIF_ANNOUNCE is set.
+
+var (
+	verifMu  sync.Mutex
+	verifLog []string
+)
+
+func cmdName(c cmdType) string {
+	names := map[cmdType]string{cmdPing: "ping", cmdOpen: "open", cmdDelete: "delete", cmdReset: "reset", cmdExecve: "execve",
+		cmdOk: "ok", cmdKill: "kill", cmdConf: "conf", cmdSymlink: "symlink"}
+	if n, ok := names[c]; ok {
+		return n
+	}
+	return "cmd" + strconv.Itoa(int(c))
+}
+
+func replyName(r *reply) string {
+	switch {
+	case r.Error != nil:
+		return "errReply"
+	case r.ExecReply != nil:
+		return "result"
+	default:
+		return "reply"
+	}
+}
+
+func verifRecord(side, what string) {
+	if strings.HasPrefix(side, "c") { // container init: its stderr is the host's Builder.Stderr
+		fmt.Fprintf(os.Stderr, "VT %s %s\n", side, what)
+		return
+	}
+	verifMu.Lock()
+	verifLog = append(verifLog, side+" "+what)
+	verifMu.Unlock()
+}
+
+func verifTraceCmd(side string, c *cmd)     { verifRecord(side, cmdName(c.Cmd)) }
+func verifTraceReply(side string, r *reply) { verifRecord(side, replyName(r)) }
+
+// VerifTakeHostLog returns and clears the host-side message log.
+func VerifTakeHostLog() []string {
+	verifMu.Lock()
+	defer verifMu.Unlock()
+	l := verifLog
+	verifLog = nil
+	return l
+}
+
+var verifDelays = func() map[string]time.Duration {
+	m := map[string]time.Duration{}
+	for _, kv := range strings.Split(os.Getenv("VERIF_DELAY"), ",") {
+		p := strings.SplitN(kv, ":", 2)
+		if len(p) == 2 {
+			if ms, err := strconv.Atoi(p[1]); err == nil {
+				m[p[0]] = time.Duration(ms) * time.Millisecond
+			}
+		}
+	}
+	return m
+}()
+
+var verifAnnounce = os.Getenv("VERIF_ANNOUNCE") != ""
+
+// VerifSetDelay arms a delay point of this process at run time.
+func VerifSetDelay(name string, d time.Duration) {
+	verifMu.Lock()
+	verifDelays[name] = d
+	verifMu.Unlock()
+}
+
+func verifPoint(name string) {
+	if verifAnnounce {
+		fmt.Fprintf(os.Stderr, "VP %s\n", name)
+	}
+	verifMu.Lock()
+	d := verifDelays[name]
+	verifMu.Unlock()
+	if d > 0 {
+		time.Sleep(d)
+	}
+}
